@@ -4,7 +4,8 @@ Three exhaustive sub-explorations (product bounds):
   acc   : atom x exponent x/z x scale z x context (position of the cone in the program) x SOC interface; every
           degree of the tier's degree list is solved inside the case.  Oracle: closed form of the pinned program
           (exponent fixed by equality rows) AND the exact exponential-cone optimum from `m.solve(eco_solver)`:
-          |v_soc - v_exact| <= 1e-3 |v_exact| + 2e-4 at every degree >= 4 (no monotonicity is demanded).
+          |v_soc - v_exact| <= 1e-3 S + 2e-4 at every degree >= 4, S = sum of |value| of the cone-defined terms of
+          the objective (= |v_exact| for a single cone; no monotonicity is demanded).
   carry : atom x context x degree.  `formula.to_socp(degree)` restricted to the original rows / columns equals the
           original program (linear, const, sense, ub, lb, vtype, obj, original qmat entries), new rows touch old
           columns only at the three exp-cone columns, new columns do not enter old rows or the objective, no
@@ -15,9 +16,9 @@ Three exhaustive sub-explorations (product bounds):
 import math
 
 PROPERTY = 'C18'
-TIMEOUT = 120.0
+TIMEOUT = 60.0
 CHUNK = 4
-FLOOR = 0.45
+FLOOR = 0.5
 RULE = ('acc: 8 atoms {exp,log,entropy,kldiv,softplus,pexp,plog,expcone} x 13 exponents {-4..4,+-0.5,+-2.5} x 3 '
         'scales {0.5,1,2} x contexts {solo, first/middle/last of 3 exp cones, next to a SOC row, user bounds, '
         'integer variable, all together} x {ECOS, Gurobi}, degrees {4,5,6,8} inside the case; non-trivial = exact '
@@ -26,7 +27,8 @@ RULE = ('acc: 8 atoms {exp,log,entropy,kldiv,softplus,pexp,plog,expcone} x 13 ex
         'degrees; hist: 8 atoms x {ro,dro} x {ECOS,Gurobi} x 3 histories')
 ASSUMPTIONS = [
     'the exponent of each cone is pinned by equality rows, so the closed form of the optimum is exact',
-    'accuracy bound 1e-3 relative plus 2e-4 absolute slack (values that are 0 by construction, e.g. log at '
+    'accuracy bound 1e-3 relative to the summed magnitude of the cone-defined objective terms (the signed sum may '
+    'nearly cancel in the 3-cone contexts) plus 2e-4 absolute slack (values that are 0 by construction, e.g. log at '
     'exponent 0); solver noise of up to 1.3e-4 was measured at degree 8, so "no larger at higher degrees" is read as '
     '"the same bound holds" (DESIGN calibration note)',
     'an inaccurate / failed solve is vacuous, never a violation',
@@ -152,6 +154,7 @@ def build(case, fe=None):
     concave = atom in CONCAVE
     terms = []       # expressions added to the minimised objective
     value = 0.0
+    scale = [0.0]    # sum of |value| of the cone-defined components (the yardstick of the relative error)
 
     def decoy(kind):
         nonlocal value
@@ -160,11 +163,13 @@ def build(case, fe=None):
             st(lambda: (rso.exp(b) <= s, b == 0.5,))
             terms.append(s)
             value += math.exp(0.5)
+            scale[0] += math.exp(0.5)
         elif kind == 'log':
             u, s = dv(), dv()
             st(lambda: (rso.log(u) >= s, u == 2.0,))
             terms.append(-s)
             value += -math.log(2.0)
+            scale[0] += math.log(2.0)
 
     def tested():
         nonlocal value
@@ -195,6 +200,7 @@ def build(case, fe=None):
             a, s = dv(), dv()
             st(lambda: (rso.expcone(t, a, s), a == e * z, s == z,))
         v = closed_form(atom, e, z)
+        scale[0] += abs(v)
         if concave:
             terms.append(-t)
             value += -v
@@ -255,7 +261,7 @@ def build(case, fe=None):
         user_value = value
     ops[0] += 1
     b = Built()
-    b.m, b.value, b.ops = m, user_value, ops[0]
+    b.m, b.value, b.ops, b.scale = m, user_value, ops[0], scale[0]
     return b
 
 
@@ -359,15 +365,17 @@ def run_acc(case):
                 bad.append((d, vd))
             continue
         solved += 1
-        tol = 1e-3 * abs(v_cf) + 2e-4
+        # relative to the magnitude of the cone-defined components: with several cones the objective is a signed
+        # sum that may nearly cancel (0.044 = -1 + 1.649 - 0.693), so |v| itself is no yardstick
+        tol = 1e-3 * max(abs(v_cf), b.scale) + 2e-4
         err = abs(v - v_cf)
         refs = [('closed form', v_cf)] + ([('exact ECOS', v_x)] if ok_x else [])
         for nm, ref in refs:
-            if abs(v - ref) > 1e-3 * abs(ref) + 2e-4:
-                band = 'far' if abs(v - ref) > 0.05 * (1 + abs(ref)) else 'near'
+            if abs(v - ref) > tol:
+                band = 'far' if abs(v - ref) > 0.05 * (1 + b.scale) else 'near'
                 return {'status': 'violation', 'ops': ops, 'sig': '%s|accuracy(%s)' % (tag, band),
                         'detail': 'degree %d e=%s z=%s: v_soc=%.9g %s=%.9g err=%.3g tol=%.3g' % (
-                            d, e, z, v, nm, ref, abs(v - ref), 1e-3 * abs(ref) + 2e-4)}
+                            d, e, z, v, nm, ref, abs(v - ref), tol)}
         worst = max(worst, err / (abs(v_cf) + 0.2))
         ratio = max(ratio, err / tol)
         if err <= 1e-9 * (1 + abs(v_cf)):
@@ -472,7 +480,7 @@ def run_hist(case):
             if step == 'soc':
                 b.m.soc_solve(_solver(iface), degree=4, display=False, params=_params(iface))
                 ok, v = _opt(b.m, iface)
-                tol = 1e-3 * abs(v_cf) + 2e-4
+                tol = 1e-3 * max(abs(v_cf), b.scale) + 2e-4
             elif step == 'solve':
                 b.m.solve(_rs['eco'], display=False)
                 ok, v = _opt(b.m, 'eco')
